@@ -187,6 +187,57 @@ def r20_3(ctx: Ctx) -> None:
                "the output directory is checked/prepared before anything is written", form="")
 
 
+def _write_mode(call: ast.Call) -> bool:
+    mode = arg_of(call, 1, "mode")
+    if mode is None:
+        return False
+    if isinstance(mode, ast.Constant) and isinstance(mode.value, str):
+        return any(ch in mode.value for ch in "wax+")
+    return True  # a computed mode may be a write mode
+
+
+def r20_4(ctx: Ctx) -> None:
+    """ callers hand write_to_file the *name* of the results file, so that the file is opened (and truncated) only
+        after the conversion succeeded; a caller that opens the target for writing itself truncates it first """
+    from ..flow import inline_reaching
+    files = [MAIN] if ctx.tier == "quick" else sorted(ctx.repo.modules)
+    count = 0
+    for rel in files:
+        for qual, func in ctx.repo.functions(rel):
+            sites = [c for c in calls(func) if last_attr(c) == "write_to_file" and isinstance(c.func, ast.Attribute)
+                     and len(c.args) + len(c.keywords) == 1]
+            if not sites:
+                continue
+            ctx.repo.consulted.add(rel)
+            cfg = CFG(func)
+            opens = [c for c in calls(func) if call_name(c) == "open" and _write_mode(c)]
+            for site in sites:
+                count += 1
+                arg = site.args[0] if site.args else site.keywords[0].value
+                resolved = inline_reaching(cfg, site, arg)
+                problems = []
+                for op in opens:
+                    path = txt(inline_reaching(cfg, op, op.args[0])) if op.args else ""
+                    handle_names = set()
+                    par = getattr(op, "_parent", None)
+                    if isinstance(par, ast.withitem) and par.optional_vars is not None:
+                        handle_names = {n.id for n in ast.walk(par.optional_vars) if isinstance(n, ast.Name)}
+                    if isinstance(par, ast.Assign):
+                        handle_names = {t.id for t in par.targets if isinstance(t, ast.Name)}
+                    same_target = path == txt(resolved) or (isinstance(arg, ast.Name) and arg.id in handle_names) \
+                        or resolved is op or txt(resolved) == txt(op)
+                    before = cfg.n(op) == cfg.n(site) or cfg.n(site) in cfg.reach([cfg.n(op)])
+                    if same_target and before:
+                        problems.append(f"line {op.lineno}: {txt(op)[:70]}")
+                ctx.ob("R20.4", rel, site, qual, f"write_to_file({txt(arg)[:40]})", not problems,
+                       "the results file is opened for writing only inside write_to_file, after the conversion: no caller opens "
+                       "the same target in a write mode before (or around) the call",
+                       detail="target opened for writing before the conversion: " + "; ".join(problems) if problems else "",
+                       form=f"argument resolves to {txt(resolved)[:80]}; write-mode opens in function: {len(opens)}")
+    if count < 1:
+        raise AnalysisError("no caller of AntismashResults.write_to_file found")
+
+
 def run(ctx: Ctx) -> None:
     ctx.rule("R20.1", "encode fully, then open for writing; nothing convertible after the open; errors re-raised", floor=10)
     ctx.rule("R20.2", "destructive calls are dominated by the refusal test; ignore list", floor=4)
@@ -194,3 +245,5 @@ def run(ctx: Ctx) -> None:
     r20_1(ctx)
     r20_2(ctx)
     r20_3(ctx)
+    ctx.rule("R20.4", "callers never open the results target for writing before write_to_file converts", floor=1)
+    r20_4(ctx)
